@@ -77,6 +77,10 @@ func rushRun(e *sgEnv, r *kc.Rng, n, adv int, commitKind string, falseAnd bool) 
 		s.XOF(r.Bytes(dnKeySize)).Read(com)
 	case "random-commit":
 		com = r.Bytes(dnKeySize)
+	case "own-key-only":
+		// no rushing: the participant commits to mix* and reveals mix*; its simulated proof is for the
+		// challenge derived from its own key alone, i.e. it bets that the honest keys are not mixed in
+		s.XOF(mixStar).Read(com)
 	}
 
 	nodes := make([]*rushNode, n)
@@ -135,7 +139,7 @@ func rushRun(e *sgEnv, r *kc.Rng, n, adv int, commitKind string, falseAnd bool) 
 		case 1:
 			key := append([]byte{}, mixStar...)
 			for i, m := range msgs {
-				if i != adv && len(m) >= dnKeySize {
+				if i != adv && len(m) >= dnKeySize && commitKind != "own-key-only" {
 					for j := 0; j < dnKeySize; j++ {
 						key[j] ^= m[j]
 					}
@@ -194,9 +198,14 @@ func c14Rushing(t *sgRun, envs []*sgEnv) {
 	for _, e := range envs {
 		r := c.Rng.Fork("rushing/" + e.name)
 		for k := 0; k < reps; k++ {
-			for ci, ck := range []string{"junk-commit", "commit-to-other-key", "random-commit"} {
+			for ci, ck := range []string{"junk-commit", "commit-to-other-key", "random-commit", "own-key-only"} {
 				n := 2 + (k+ci)%3
-				jobs = append(jobs, &job{e: e, r: r.Fork(fmt.Sprint(k, ck)), k: k, n: n, adv: r.Intn(n), ck: ck, falseAnd: (k+ci)%2 == 1})
+				adv := r.Intn(n)
+				if ck == "own-key-only" {
+					// one honest participant, at either index
+					n, adv = 2, k%2
+				}
+				jobs = append(jobs, &job{e: e, r: r.Fork(fmt.Sprint(k, ck)), k: k, n: n, adv: adv, ck: ck, falseAnd: (k+ci)%2 == 1})
 			}
 		}
 	}
@@ -224,7 +233,7 @@ func c14Rushing(t *sgRun, envs []*sgEnv) {
 			continue // no honest participant completed: nothing was accepted
 		}
 		if len(j.acc) > 0 {
-			c.Violation("C14:deniable-rushing:accept", fmt.Sprintf("%s: a participant that reveals a key different from its commitment and has no witness is accepted by honest participants %v (%d participants, %s, false And-statement=%v)", e.name, j.acc, j.n, j.ck, j.falseAnd),
+			c.Violation("C14:deniable-rushing:accept", fmt.Sprintf("%s: a participant without a witness that steers or predicts the joint challenge (commitment kind %s) is accepted by honest participants %v (%d participants, false And-statement=%v)", e.name, j.ck, j.acc, j.n, j.falseAnd),
 				map[string]any{"group": e.name, "participants": j.n, "adversary": j.adv, "commit": j.ck, "false_and": j.falseAnd, "seed": c.Seed, "k": j.k})
 		}
 	}
